@@ -40,6 +40,9 @@ var DefaultTTL = 60 * 60 * time.Second
 var NotFound = errors.New("not found")
 var Exists = errors.New("job exists")
 
+// NoFuture is returned when a cron expression has no occurrence left.
+var NoFuture = errors.New("no future occurrence")
+
 type Cron struct {
 	DB              *bolt.DB
 	Partitions      int
@@ -198,7 +201,13 @@ func (c *Cron) set(j *Job) error {
 		return err
 	}
 
-	j.at = schedule.Next(time.Now().UTC()).Add(c.Jitter())
+	next := schedule.Next(time.Now().UTC())
+	if next.IsZero() {
+		// No occurrence is left.  A zero time would be due
+		// immediately, again and again.
+		return NoFuture
+	}
+	j.at = next.Add(c.Jitter())
 
 	return nil
 }
@@ -395,7 +404,12 @@ func (s *Cron) work(part string) func(tx *bolt.Tx) error {
 				job.Evict = true
 			}
 
-			if err = s.set(&job); err != nil {
+			if err = s.set(&job); err == NoFuture {
+				// That was the last occurrence.
+				job.Evict = true
+				err = s.set(&job)
+			}
+			if err != nil {
 				return err
 			}
 
